@@ -25,6 +25,12 @@ def make(family, rng, tier):
         scn = sysgen.gen(rng, rng.choice(ALGOS) if ALGOS else None, PROP, tier)
     scn["oracles"] = ORACLES
     scn["defer"] = ["C01.", "C02."]
+    if "pipes" in scn and rng.random() < 0.2:
+        # recurring jobs: the id of a finished pipeline comes back, possibly in another priority class
+        scn["reuse_ids"] = True
+        scn["reuse_any_class"] = rng.random() < 0.6
+        scn["reuse_seed"] = rng.randint(0, 10 ** 6)
+        scn["reuse_gap"] = 2
     return scn
 
 
